@@ -437,10 +437,20 @@ fn s_utils(p: &P) -> Option<String> {
                let n = 4 + lb.len() + pl;
                let mut exp = generate_gse_header(&dvb_gse_rust::gse_decap::read_gse_header(0xC000).unwrap().1, &label.get_type(), (n - 2) as u16).to_be_bytes().to_vec(); exp.extend_from_slice(&pt.to_be_bytes()); exp.extend_from_slice(&lb); exp.extend_from_slice(&pdu);
                if buf[..n] != exp[..] { return Some("generated complete packet differs from the wire format".to_string()); }
+               // the encapsulator emits the same bytes for the same fields (re-use disabled: the label is written as given)
+               if pt >= 0x600 && lk != 3 { let mut e = enc(); e.disable_re_use_label(); let mut eb = vec![0u8; n];
+                   match e.encap(&pdu, 7, EncapMetadata::new(pt, label), &mut eb) { Ok(EncapStatus::CompletedPkt(k)) if k as usize == n && eb[..n] == buf[..n] => {}
+                       other => return Some(format!("encapsulator does not emit the generated complete packet: {:?}", other)) } }
                match GseCompletePacket::parse(&buf[..n]) { Ok(y) if y == x => None, other => Some(format!("parse(generate(x)) = {:?}", other)) } }
         1 => { let x = GseFirstFragPacket::new((5 + lb.len() + pl) as u16, 7, total, pt, label, &pdu); x.generate(&mut buf);
                let n = 7 + lb.len() + pl;
                if buf[2] != 7 || buf[3..5] != total.to_be_bytes() || buf[5..7] != pt.to_be_bytes() || buf[7..7 + lb.len()] != lb[..] || buf[7 + lb.len()..n] != pdu[..] { return Some("generated first fragment differs from the wire format".to_string()); }
+               // the encapsulator emits the same first fragment when the PDU is longer than what the buffer takes
+               if pt >= 0x600 && lk != 3 && pl <= 60 { let mut e = enc(); e.disable_re_use_label(); let mut eb = vec![0u8; n]; let big = pdu_of(pl + 40);
+                   let t2 = (big.len() + 2 + lb.len()) as u16;
+                   let x2 = GseFirstFragPacket::new((5 + lb.len() + pl) as u16, 7, t2, pt, label, &big[..pl]); let mut b2 = vec![0u8; n + 8]; x2.generate(&mut b2);
+                   match e.encap(&big, 7, EncapMetadata::new(pt, label), &mut eb) { Ok(EncapStatus::FragmentedPkt(k, _)) if k as usize == n && eb[..n] == b2[..n] => {}
+                       other => return Some(format!("encapsulator does not emit the generated first fragment: {:?}", other.map(|_| ()))) } }
                match GseFirstFragPacket::parse(&buf[..n]) { Ok(y) if y == x => None, other => Some(format!("parse(generate(x)) = {:?}", other)) } }
         2 => { let x = GseIntermediatePacket::new((1 + pl) as u16, 7, &pdu); x.generate(&mut buf); let n = 3 + pl;
                if buf[2] != 7 || buf[3..n] != pdu[..] { return Some("generated intermediate fragment differs".to_string()); }
@@ -452,7 +462,7 @@ fn s_utils(p: &P) -> Option<String> {
 }
 fn g_utils() -> Vec<P> {
     let mut v = vec![];
-    for kind in 0..4i64 { for &pl in &[0i64, 1, 2, 10, 100, 4000] { for lk in [0i64, 1, 2, 3] { for &pt in &[0x0600i64, 0x0800, 0xFFFF] { for &total in &[10i64, 4095, 4096, 5002, 65535] { v.push(vec![kind, pl, lk, pt, total]); } } } } }
+    for kind in 0..4i64 { for &pl in &[0i64, 1, 2, 10, 100, 4000] { for lk in [0i64, 1, 2, 3, 5] { for &pt in &[0x0600i64, 0x0800, 0xFFFF] { for &total in &[10i64, 4095, 4096, 5002, 65535] { v.push(vec![kind, pl, lk, pt, total]); } } } } }
     v
 }
 
@@ -634,7 +644,7 @@ const SEARCHES: &[Search] = &[
     Search { name: "ext_new", props: &["C13"], f: s_ext_new, g: g_ext_new },
     Search { name: "frag", props: &["C02", "C06", "C09", "C11", "C18"], f: s_frag, g: g_frag },
     Search { name: "enc", props: &["C01", "C02", "C06", "C09", "C11", "C12", "C18", "C04", "C15"], f: s_enc, g: g_enc },
-    Search { name: "policy", props: &["C04", "C15", "C09"], f: s_policy_dispatch, g: g_policy },
+    Search { name: "policy", props: &["C04", "C15", "C09", "C01", "C02"], f: s_policy_dispatch, g: g_policy },
     Search { name: "transfer", props: &["C01", "C02", "C03", "C12", "C11"], f: s_transfer, g: g_transfer },
     Search { name: "decap_bytes", props: &["C05", "C10", "C16"], f: s_decap_bytes, g: g_decap_bytes },
     Search { name: "history", props: &["C05", "C07", "C08", "C03", "C10"], f: s_history, g: g_history },
